@@ -102,6 +102,14 @@ def gen(d, fname, file, tag, L, args, rt, req, ens, label=None, **kw):
         if kind == 'T' and L:
             ins += vec_ins(L, tag, a)
             call_args.append(vec_make(L, tag, a))
+        elif kind == 'T8':   # element-typed argument passed through an 8-bit shim parameter (bounds the loops it controls)
+            t8 = 'i8' if sg else 'u8'
+            if L:
+                ins += vec_ins(L, t8, a)
+                call_args.append(vec_make(L, tag, a))
+            else:
+                ins.append((cpp_type(t8), a))
+                call_args.append('static_cast<%s>(%s)' % (cpp, a))
         elif kind == 'IV' and L:
             ins += vec_ins(L, 'i32', a)
             call_args.append(vec_make(L, 'i32', a))
@@ -119,7 +127,7 @@ def gen(d, fname, file, tag, L, args, rt, req, ens, label=None, **kw):
     for i in range(N):
         c = {'R': results(L)[i]}
         for kind, a in args:
-            vecform = L and kind in ('T', 'IV')
+            vecform = L and kind in ('T', 'IV', 'T8')
             c[a] = '%s%d' % (a, i) if vecform else a
         for rn, f in req:
             e = f(c)
@@ -166,10 +174,11 @@ for tag, (cpp, n, sg) in INT_TYPES.items():
         gen(d_p2, 'log2', F_GI, tag, L, a, 'T', [pos],
             [('floor_log2_exact', lambda c: 'spec_is_floor_log2(%s, %s)' % (pv(tag, c['R']), pv(tag, c['x'])))])
         if L != 1:   # gtx factorial has scalar, vec2, vec3, vec4 forms
-            gen(d_p2, 'factorial', F_XI, tag, L, a, 'T',
-                [('x_in_documented_range_0_12', lambda c: '%s%s <= 12' % ('(%s)%s >= 0 && ' % (S(tag), c['x']) if sg else '', pv(tag, c['x']))),
-                 ('result_representable', lambda c: 'spec_factorial(%s) <= 0x%xull' % (pv(tag, c['x']), (1 << vb) - 1))],
-                [('factorial_exact', lambda c: '%s == spec_factorial(%s)' % (pv(tag, c['R']), pv(tag, c['x'])))],
+            t8 = 'i8' if sg else 'u8'
+            gen(d_p2, 'factorial', F_XI, tag, L, [('T8', 'x')], 'T',
+                [('x_in_documented_range_0_12', lambda c: '%s%s <= 12' % ('(s8)%s >= 0 && ' % c['x'] if sg else '', pv(t8, c['x']))),
+                 ('result_representable', lambda c: 'spec_factorial(%s) <= 0x%xull' % (pv(t8, c['x']), (1 << vb) - 1))],
+                [('factorial_exact', lambda c: '%s == spec_factorial(%s)' % (pv(tag, c['R']), pv(t8, c['x'])))],
                 bounded='x <= 12', unwind=22)
 
 # ------------------------------------------------------------------------------------------------
@@ -302,8 +311,8 @@ for tin, tout in (('u8', 'u16'), ('u16', 'u32'), ('u32', 'u64')):
 # gtx_integer: 32-bit int / unsigned int only.  "Exact mathematical value", result representable.
 YMAX = 8
 XI = dict(build=B[d_gx.name])
-d_gx.shim('glm_pow_i32', 'int32_t', [('int32_t', 'x'), ('uint32_t', 'y')], 'return glm::pow(x, y);')
-d_gx.shim('glm_pow_u32', 'uint32_t', [('uint32_t', 'x'), ('uint32_t', 'y')], 'return glm::pow(x, y);')
+d_gx.shim('glm_pow_i32', 'int32_t', [('int32_t', 'x'), ('uint8_t', 'y')], 'return glm::pow(x, static_cast<glm::uint>(y));')
+d_gx.shim('glm_pow_u32', 'uint32_t', [('uint32_t', 'x'), ('uint8_t', 'y')], 'return glm::pow(x, static_cast<glm::uint>(y));')
 d_gx.shim('glm_sqrt_i32', 'int32_t', [('int32_t', 'x')], 'return glm::sqrt(x);')
 d_gx.shim('glm_sqrt_u32', 'uint32_t', [('uint32_t', 'x')], 'return glm::sqrt(x);')
 d_gx.shim('glm_mod_i32', 'int32_t', [('int32_t', 'x'), ('int32_t', 'y')], 'return glm::mod(x, y);')
